@@ -15,25 +15,32 @@ Variable T : tables.
 Definition py_isinstance (v : val) (c : cls) : bool :=
   match c with
   | KAny => true
-  | _ => existsb (cls_eqb c) (lookup_row (class_of v) (t_rows T))
+  | _ => existsb (cls_eqb c) (lookup_row (class_of T v) (t_rows T))
   end.
 
+(* a container type: the value is an instance of the container class (a subclass instance will do), has the
+   container's shape, and its items conform *)
 Fixpoint conforms (t : ty) (v : val) {struct t} : Prop :=
   match t with
   | TBase c => py_isinstance v c = true
-  | TList a => exists l, v = VList l /\ Forall (conforms a) l
-  | TMulti a => exists l, v = VList l /\ Forall (conforms a) l       (* a MultiInputObj field holds a list *)
-  | TTupleVar a => exists l, v = VTuple l /\ Forall (conforms a) l
-  | TSet fr a => exists l, v = VSet fr l /\ Forall (conforms a) l
+  | TList a => py_isinstance v CList = true /\ exists k l, v = VList k l /\ Forall (conforms a) l
+  | TMulti a => py_isinstance v CList = true /\ exists k l, v = VList k l /\ Forall (conforms a) l
+  | TTupleVar a => py_isinstance v CTuple = true /\ exists k l, v = VTuple k l /\ Forall (conforms a) l
+  | TSet fr a =>
+      py_isinstance v (if fr then CFrozenset else CSet) = true /\
+      exists k l, v = VSet k fr l /\ Forall (conforms a) l
   | TTuple ts =>
-      exists l, v = VTuple l /\
+      py_isinstance v CTuple = true /\
+      exists k l, v = VTuple k l /\
         (fix go (ts : list ty) (l : list val) : Prop :=
            match ts, l with
            | [], [] => True
            | a :: r, x :: xs => conforms a x /\ go r xs
            | _, _ => False
            end) ts l
-  | TDict k x => exists kv, v = VDict kv /\ Forall (fun p => conforms k (fst p) /\ conforms x (snd p)) kv
+  | TDict k x =>
+      py_isinstance v CDict = true /\
+      exists g kv, v = VDict g kv /\ Forall (fun p => conforms k (fst p) /\ conforms x (snd p)) kv
   | TUnion ts => (fix go (ts : list ty) : Prop := match ts with [] => False | a :: r => conforms a v \/ go r end) ts
   end.
 
@@ -41,12 +48,16 @@ Fixpoint conforms (t : ty) (v : val) {struct t} : Prop :=
 Fixpoint conformsb (t : ty) (v : val) {struct t} : bool :=
   match t with
   | TBase c => py_isinstance v c
-  | TList a | TMulti a => match v with VList l => forallb (conformsb a) l | _ => false end
-  | TTupleVar a => match v with VTuple l => forallb (conformsb a) l | _ => false end
-  | TSet fr a => match v with VSet fr' l => Bool.eqb fr fr' && forallb (conformsb a) l | _ => false end
+  | TList a | TMulti a =>
+      py_isinstance v CList && match v with VList _ l => forallb (conformsb a) l | _ => false end
+  | TTupleVar a => py_isinstance v CTuple && match v with VTuple _ l => forallb (conformsb a) l | _ => false end
+  | TSet fr a =>
+      py_isinstance v (if fr then CFrozenset else CSet) &&
+      match v with VSet _ fr' l => Bool.eqb fr fr' && forallb (conformsb a) l | _ => false end
   | TTuple ts =>
+      py_isinstance v CTuple &&
       match v with
-      | VTuple l =>
+      | VTuple _ l =>
           (fix go (ts : list ty) (l : list val) : bool :=
              match ts, l with
              | [], [] => true
@@ -56,8 +67,9 @@ Fixpoint conformsb (t : ty) (v : val) {struct t} : bool :=
       | _ => false
       end
   | TDict k x =>
+      py_isinstance v CDict &&
       match v with
-      | VDict kv => forallb (fun p => conformsb k (fst p) && conformsb x (snd p)) kv
+      | VDict _ kv => forallb (fun p => conformsb k (fst p) && conformsb x (snd p)) kv
       | _ => false
       end
   | TUnion ts => existsb (fun a => conformsb a v) ts
@@ -66,31 +78,32 @@ Fixpoint conformsb (t : ty) (v : val) {struct t} : bool :=
 End Conforms.
 
 (* ------------------------------------------------------------------ strings are not split, sequences not joined *)
-Definition is_strlike (v : val) : bool := match v with VStr _ | VBytes _ => true | _ => false end.
+Definition is_strlike (v : val) : bool := match v with VStr _ _ | VBytes _ _ => true | _ => false end.
 Definition is_coll (v : val) : bool :=
-  match v with VList _ | VTuple _ | VSet _ _ | VDict _ => true | _ => false end.
+  match v with VList _ _ | VTuple _ _ | VSet _ _ _ | VDict _ _ => true | _ => false end.
 Definition children (v : val) : list val :=
   match v with
-  | VList l | VTuple l | VSet _ l => l
-  | VDict kv => map fst kv ++ map snd kv
+  | VList _ l | VTuple _ l | VSet _ _ l => l
+  | VDict _ kv => map fst kv ++ map snd kv
   | _ => []
   end.
 
 Section NoStrSeq.
+Variable T : tables.
 Variable A : cls -> cls -> bool.       (* tolerated (class of the input, class of what it became) *)
 
 (* v is the input (or a part of it), v' what is stored in its place *)
 Fixpoint nss (v v' : val) {struct v'} : bool :=
-  A (class_of v) (class_of v') ||
+  A (class_of T v) (class_of T v') ||
   (if is_coll v'
    then
      (* the whole input wrapped as the single item of a list (what a MultiInputObj field does) *)
-     (match v' with VList [x] => nss v x | _ => false end)
+     (match v' with VList _ [x] => nss v x | _ => false end)
      (* or a collection re-typed item by item: every stored item stands for some item of the input *)
      || (is_coll v &&
          match v' with
-         | VList l | VTuple l | VSet _ l => forallb (fun x' => existsb (fun x => nss x x') (children v)) l
-         | VDict kv =>
+         | VList _ l | VTuple _ l | VSet _ _ l => forallb (fun x' => existsb (fun x => nss x x') (children v)) l
+         | VDict _ kv =>
              forallb (fun p => let '(k', x') := p in
                         existsb (fun x => nss x k') (children v) && existsb (fun x => nss x x') (children v)) kv
          | _ => false
@@ -107,7 +120,7 @@ Definition no_pairs : cls -> cls -> bool := fun _ _ => false.
 (* ------------------------------------------------------------------ C21: side conditions on (target type, value) *)
 (* what iterating the value yields: the items of a list/tuple/set, the keys of a dict *)
 Definition items_of (v : val) : list val :=
-  match v with VList l | VTuple l | VSet _ l => l | VDict kv => map fst kv | _ => [] end.
+  match v with VList _ l | VTuple _ l | VSet _ _ l => l | VDict _ kv => map fst kv | _ => [] end.
 
 (* "fixed-length tuple arity aside": wherever the target type has a tuple[t1..tn], the collection that reaches it
    has n items.  Stated on the target type and the value alone (a Union must be fine whichever arm is taken, a
@@ -127,7 +140,7 @@ Fixpoint arity_ok (t : ty) (v : val) {struct t} : bool :=
           end) ts (items_of v))
   | TDict k x =>
       match v with
-      | VDict kv => forallb (fun p => arity_ok k (fst p) && arity_ok x (snd p)) kv
+      | VDict _ kv => forallb (fun p => arity_ok k (fst p) && arity_ok x (snd p)) kv
       | _ => true
       end
   | TUnion ts => forallb (fun a => arity_ok a v) ts
@@ -165,7 +178,7 @@ Fixpoint unhash_hit (t : ty) (v : val) {struct t} : bool :=
          end) ts (items_of v)
   | TDict k x =>
       match v with
-      | VDict kv => existsb (fun p => unhash_after k (fst p) || unhash_hit k (fst p) || unhash_hit x (snd p)) kv
+      | VDict _ kv => existsb (fun p => unhash_after k (fst p) || unhash_hit k (fst p) || unhash_hit x (snd p)) kv
       | _ => false
       end
   | TUnion ts => existsb (fun a => unhash_hit a v) ts
